@@ -1243,6 +1243,18 @@ impl InterfaceInner {
 
         #[cfg(feature = "medium-ieee802154")]
         if matches!(self.caps.medium, Medium::Ieee802154) {
+            // A multicast listener report carries a hop-by-hop header in front of its ICMPv6
+            // message, a payload the 6LoWPAN path cannot compress (yet): it is not sent.
+            #[cfg(feature = "proto-ipv6")]
+            if let Packet::Ipv6(PacketV6 {
+                payload: IpPayload::HopByHopIcmpv6(..),
+                ..
+            }) = &packet
+            {
+                net_debug!("6LoWPAN: multicast listener reports are not supported, dropping");
+                return Ok(());
+            }
+
             let (addr, tx_token) =
                 self.lookup_hardware_addr(tx_token, &ip_repr.dst_addr(), frag)?;
             let addr = addr.ieee802154_or_panic();
